@@ -34,6 +34,21 @@ def sortMod (xs : List Nat) : List Nat := xs.mergeSort (fun a b => a % 10 ≤ b 
 
 def NSLOT : Nat := 4
 
+/-- what the next growth step of `a` means for the driver: 0 = executable (no growth, a refusal at
+the capacity limit, or a small block), 1 = the request exceeds 2^40 bytes and is refused by the
+harness allocator (`refuse_now` in common.h, reported as `absurd=`), 2 = a block the driver cannot
+materialise although the harness would serve it -/
+def growCheck (a : Arr) : Nat :=
+  if a.size < a.capacity then 0
+  else if a.capacity = Gen.CC_MAX_ELEMENTS ∨ a.newCapacity > Gen.CC_MAX_ELEMENTS / 8 then 0
+  else if a.newCapacity * 8 > 2 ^ 40 then 1
+  else if a.newCapacity > 2 ^ 24 then 2 else 0
+
+/-- allocator view of a call that grows `a`: an absurd request is a refusal of the first call that is
+not counted as a scheduled refusal -/
+def absurdBegin (gc : Nat) (c : Cmd) (m : Mem) : Mem := if gc = 1 ∧ c.sched.isEmpty then { m with sched := [true] } else m
+def absurdEnd (gc : Nat) (c : Cmd) (m : Mem) : Mem := if gc = 1 ∧ c.sched.isEmpty then { m with nrefused := 0 } else m
+
 structure Sess where
   slots  : List (Option Arr) := [none, none, none, none]
   sslots : List (Option (List Nat)) := [none, none, none, none]
@@ -101,8 +116,8 @@ def step (s : Sess) (c : Cmd) : Sess × String × String :=
     let isNew := c.op == "new"
     let cap := if isNew then c.nat "cap" Gen.ARRAY_DEFAULT_CAPACITY else Gen.ARRAY_DEFAULT_CAPACITY
     let f := effFactor (match (if isNew then c.str "exp" else none) with | some e => parseF32 e | none => defaultFactor)
-    -- growth steps the driver cannot materialise
-    if f > 1024 ∨ (2 ^ 24 < cap ∧ cap * 8 ≤ 2 ^ 40) then ({ blind := true }, "S ?", "M ?") else
+    -- blocks the driver cannot materialise although the harness allocator would serve them
+    if 2 ^ 24 < cap ∧ cap * 8 ≤ 2 ^ 40 then ({ blind := true }, "S ?", "M ?") else
     -- a request above 2^40 bytes is refused by the harness allocator (`refuse_now` in common.h, counted
     -- as `absurd=`, not as a scheduled refusal): the buffer is the 2nd allocator call
     let absurd := cap * 8 > 2 ^ 40 ∧ c.sched.isEmpty
@@ -152,6 +167,7 @@ def step (s : Sess) (c : Cmd) : Sess × String × String :=
           let (sst, so, zc') := zc.remove
           fin (putS { (s.setArr k1 (some a1')).setArr k2 (some a2') with zit := some (k1, k2, it'), mem := m } zc') (fmtOut2 sst so) (fmtOut2 st o)
         | "zit_add" =>
+          if growCheck a1 ≠ 0 ∨ growCheck a2 ≠ 0 then ({ s with blind := true }, "S ?", "M ?") else
           let (st, a1', a2', it', m) := Arr.zipAdd a1 a2 it x y s.mem
           let (sst, zc') := if refused then (Stat.errAlloc, zc) else zc.add x y
           fin (putS { (s.setArr k1 (some a1')).setArr k2 (some a2') with zit := some (k1, k2, it'), mem := m } zc') (fmtStat sst) (fmtStat st)
@@ -183,8 +199,11 @@ def step (s : Sess) (c : Cmd) : Sess × String × String :=
           let (sst, so, cu) := cur.remove
           fin (putS { s.setArr k1 (some a') with it := some (k1, it'), mem := m } cu) (fmtOut sst so) (fmtOut st o)
         | "it_add" =>
-          let (st, a', it', m) := a.iterAdd it x s.mem
-          let (sst, cu) := if refused then (Stat.errAlloc, cur) else cur.add x
+          let gc := growCheck a
+          if gc = 2 then ({ s with blind := true }, "S ?", "M ?") else
+          let (st, a', it', m) := a.iterAdd it x (absurdBegin gc c s.mem)
+          let m := absurdEnd gc c m
+          let (sst, cu) := if refused then (Stat.errAlloc, cur) else if st == .errMaxCapacity then (st, cur) else cur.add x
           fin (putS { s.setArr k1 (some a') with it := some (k1, it'), mem := m } cu) (fmtStat sst) (fmtStat st)
         | "it_replace" =>
           let (st, o, a', m) := a.iterReplace it x s.mem
@@ -201,14 +220,20 @@ def step (s : Sess) (c : Cmd) : Sess × String × String :=
       fin { (s.setArr k (some a')).setLst k (some xs') with mem := m } hdS hdM
     match c.op with
     | "drop" => fin { s.dropSlot k with mem := a.destroy s.mem } "st=-" "st=-"
+    -- the ideal list is told when a growing call was blocked: refusals come from the C run
+    -- (`@fired`), the capacity limit (`CC_ERR_MAX_CAPACITY`) from the model's status
     | "add" =>
-      let (st, a', m) := a.add x s.mem
-      let (sst, xs') := if refused then (Stat.errAlloc, xs) else Spec.Seq.add xs x
-      upd a' m xs' (fmtStat sst) (fmtStat st)
+      let gc := growCheck a
+      if gc = 2 then ({ s with blind := true }, "S ?", "M ?") else
+      let (st, a', m) := a.add x (absurdBegin gc c s.mem)
+      let (sst, xs') := if refused then (Stat.errAlloc, xs) else if st == .errMaxCapacity then (st, xs) else Spec.Seq.add xs x
+      upd a' (absurdEnd gc c m) xs' (fmtStat sst) (fmtStat st)
     | "add_at" =>
-      let (st, a', m) := a.addAt x y s.mem
-      let (sst, xs') := if refused then (Stat.errAlloc, xs) else Spec.Seq.addAt xs x y
-      upd a' m xs' (fmtStat sst) (fmtStat st)
+      let gc := if y ≤ a.size then growCheck a else 0
+      if gc = 2 then ({ s with blind := true }, "S ?", "M ?") else
+      let (st, a', m) := a.addAt x y (absurdBegin gc c s.mem)
+      let (sst, xs') := if refused then (Stat.errAlloc, xs) else if st == .errMaxCapacity then (st, xs) else Spec.Seq.addAt xs x y
+      upd a' (absurdEnd gc c m) xs' (fmtStat sst) (fmtStat st)
     | "replace_at" =>
       let (st, o, a', m) := a.replaceAt x y s.mem
       let (sst, so, xs') := Spec.Seq.replaceAt xs x y
